@@ -69,7 +69,7 @@ func c07Harness(nPairs int, extras, conflicts bool) Harness {
 		}
 		mentions := 0
 		for _, ap := range am.pairs {
-			if ap.expr == 2 {
+			if ap.expr >= 2 {
 				mentions++
 			}
 		}
